@@ -527,9 +527,13 @@ def load (c : Cfg) : LoadRes :=
       | .error e => .reject e.str
       | .ok fls => .accept fls
 
-/-- fuel for the walker: one more than the largest `dfsFuel` of a loaded direction -/
+/-- depth a walk of a validated direction never exceeds: its number of nodes, plus one -/
+def depthOf (g : DirGraph) : Nat := g.nodes.length + 1
+
+/-- fuel for the walker: covers `depthOf` of every loaded direction (a deterministic oracle makes
+    "deeper than the number of nodes" the same as "does not terminate") -/
 def walkFuel (fls : List Flow) : Nat :=
-  (fls.foldl (fun m f => max m (max (dfsFuel f.req) (dfsFuel f.res))) 0) + 2
+  (fls.foldl (fun m f => max m (max (depthOf f.req) (depthOf f.res))) 0) + 1
 
 def selected (fls : List Flow) : Selected := { user := fls }
 
